@@ -210,6 +210,67 @@ def tlc_strict(cfg, trace_path, wd, timeout=600, base="TraceRenetStrict"):
     return {"ok": True, "drifts": drifts, "stats": stats, "wall": dt}
 
 
+MODELLED_MSG_STEPS = {"send", "recv", "update", "flush", "deliver", "drop", "hostile", "api", "get_event", "bcast", "heal", "round", "roundeach",
+                      "drain", "tick"}
+
+
+def strict_generated(scheds, trace_path, wd, timeout=900, max_steps=None):
+    """Strict pass for traces of GENERATED message-layer schedules: the runs are grouped by channel configuration and every group is
+    compared event by event with Renet.tla (one connection) / TraceServerStrict (RenetServer with several ids)."""
+    groups = {}
+    steps = 0
+    for no, sc in enumerate(scheds, start=1):
+        cfg = sc["cfg"]
+        if "sc" not in cfg:
+            continue
+        # the quick tier follows a prefix of every batch only (about 300 events per second and TLC process)
+        steps += len(sc["steps"]) + sum(8 * st.get("n", 1) for st in sc["steps"] if st["a"] in ("round", "roundeach"))
+        if max_steps is not None and steps > max_steps and groups:
+            break
+        if not all(isinstance(cfg.get(k, 0), int) for k in ("budget", "seqbase", "midbase")):
+            continue            # counters started near 2^62: beyond TLC's 32-bit integers, judged by the monitor only
+        multi = len(cfg.get("conns", [1])) > 1 or cfg.get("manual") or cfg.get("conns", [1]) != [1]
+        key = sha(json.dumps([multi] + [cfg.get(k, 0) for k in ("sc", "cs", "budget", "seqbase", "midbase")], sort_keys=True))
+        groups.setdefault(key, {"cfg": cfg, "multi": multi, "runs": set()})["runs"].add(no)
+    if not groups:
+        return None
+    run_of = {}
+    for key, g in groups.items():
+        for r in g["runs"]:
+            run_of[r] = key
+    d = os.path.join(wd, "strict")
+    os.makedirs(d, exist_ok=True)
+    files = {key: open(os.path.join(d, "gen-%s-%s" % (key, os.path.basename(trace_path))), "w") for key in groups}
+    pat = re.compile(r'"run":(\d+)[,}]')
+    # numbers beyond 2^30 are clamped in the log (TLC integers are 32-bit): such a run cannot be followed by the model
+    clamped = set()
+    with open(trace_path) as f:
+        for line in f:
+            if "1073741823" in line:
+                m = pat.search(line)
+                if m:
+                    clamped.add(int(m.group(1)))
+    with open(trace_path) as f:
+        for line in f:
+            m = pat.search(line)
+            if m and int(m.group(1)) in run_of and int(m.group(1)) not in clamped:
+                files[run_of[int(m.group(1))]].write(line)
+    for fh in files.values():
+        fh.close()
+    tot = {"ok": True, "drifts": [], "stats": {}, "wall": 0.0}
+    for key, g in groups.items():
+        r = tlc_strict(g["cfg"], files[key].name, wd, timeout=timeout, base=("TraceServerStrict" if g["multi"] else "TraceRenetStrict"))
+        os.remove(files[key].name)
+        tot["wall"] += r["wall"]
+        if not r["ok"]:
+            tot["ok"] = False
+            tot["error"] = r.get("error", "")
+        tot["drifts"] += r["drifts"]
+        for k, v in r["stats"].items():
+            tot["stats"][k] = tot["stats"].get(k, 0) + v
+    return tot
+
+
 def export_paths(text):
     """Parse the PATH / CFG lines printed by an exporting model-checking run; keep the maximal paths."""
     cfg = None
